@@ -18,11 +18,11 @@ var propDescs = map[string]propDesc{
 		NotDecided: "visibility under real schedules at memory-model level; behaviour of later transactions beyond channel/pool state.",
 	},
 	"C03": {
-		Decides:    "closed-transaction and unlocked-table guards dominate all effects and return the documented errors; every error return of modify/delete is preceded by compensation of the primary index and of the revision counter (GUARD-ERRORS, REVERT).",
+		Decides:    "closed-transaction and unlocked-table guards dominate all effects and return the documented errors; every error return of modify/delete is preceded by compensation of the primary index and of the revision counter; whether a write is guarded is carried separately from the guard revision (no revision value switches the comparison off); a table that is not part of the transaction is reported with the documented error before its position is used as an index; key lengths are not narrowed to 16 bits (GUARD-ERRORS, REVERT, LEN-NARROW).",
 		NotDecided: "return values, read-your-writes, map equivalence - value semantics without a static handle.",
 	},
 	"C04": {
-		Decides:    "every successful write path updates every index family; the two reindex implementations agree, remove exactly keys not in the new set with the same key transform and have no shortcut around insertion/removal; key presence is never encoded as nil-ness; KeySet methods agree on emptiness; the non-unique key encoding is injective and order preserving (INDEX-FAMILIES, REINDEX-SIBLINGS, NIL-SENTINEL, KEYSET-GUARD, ENC-*).",
+		Decides:    "every successful write path updates every index family; the two reindex implementations agree, remove exactly keys not in the new set with the same key transform and have no shortcut around insertion/removal; key presence is never encoded as nil-ness; KeySet methods agree on emptiness; a unique entry is removed only by its owner; an LPM lookup falls back to the covering prefix; iterators honour yield's result; the non-unique key encoding is injective and order preserving (INDEX-FAMILIES, REINDEX-SIBLINGS, NIL-SENTINEL, KEYSET-GUARD, ENC-*).",
 		NotDecided: "exactness/order of query results, de-duplication logic, LPM traversal.",
 	},
 	"C05": {
@@ -38,7 +38,7 @@ var propDescs = map[string]propDesc{
 		NotDecided: "that each source is itself in revision order (index semantics), convergence, partial consumption accounting.",
 	},
 	"C08": {
-		Decides:    "deletes go to both graveyard indexes only under trackers, re-insert cleans both, the collector re-checks by deletion-revision key and scans only up to the minimum over all trackers, triggers are non-blocking, graveyard indexes are unreachable from query/count paths (INDEX-FAMILIES/GRAVEYARD-PAIR, GC-SCAN, GRAVEYARD-REFS, TRIGGER-NONBLOCK).",
+		Decides:    "deletes go to both graveyard indexes only under trackers, re-insert cleans both, the collector re-checks by deletion-revision key and scans only up to the minimum over all trackers, triggers are non-blocking and one is requested at Start, tracker names stay unique while registered, graveyard indexes are unreachable from query/count paths (INDEX-FAMILIES/GRAVEYARD-PAIR, GC-SCAN, GRAVEYARD-REFS, TRIGGER-NONBLOCK, START-TRIGGER, CHANGES-INIT).",
 		NotDecided: "liveness (eventually discarded, drains to zero); collector/writer races beyond the re-check.",
 	},
 	"C09": {
@@ -46,7 +46,7 @@ var propDescs = map[string]propDesc{
 		NotDecided: "monotonicity across commits as a history property; uniqueness among live objects.",
 	},
 	"C10": {
-		Decides:    "acyclic lock-class graph; table locks only via the sorted bulk acquire; root-mutex and leaf-mutex regions are non-blocking and call no user code; library transactions always finish and never nest; WriteTxn/Commit/Abort block only on the requested tables' locks and the short mutexes; readers reach no blocking operation; GC triggers are non-blocking ; every short mutex is released on every exit of the function that took it and the fields it guards are only touched inside its region (LOCK-GRAPH, SORTED-LOCK, LOCK-SITES, MU-NONBLOCK, TXN-PAIR, WTXN-BLOCKS, READ-NOBLOCK, TRIGGER-NONBLOCK, LOCK-PAIR, GUARDED-BY).",
+		Decides:    "acyclic lock-class graph; table locks only via the sorted bulk acquire; root-mutex and leaf-mutex regions are non-blocking and call no user code; library transactions always finish and never nest; WriteTxn/Commit/Abort block only on the requested tables' locks and the short mutexes; readers reach no blocking operation; GC triggers are non-blocking; the collector locks one table per transaction; runtime cleanups do not wait for table locks; no explicit panic while a lock is held; every short mutex is released on every exit of the function that took it and the fields it guards are only touched inside its region (LOCK-GRAPH, SORTED-LOCK, LOCK-SITES, MU-NONBLOCK, TXN-PAIR, WTXN-BLOCKS, READ-NOBLOCK, TRIGGER-NONBLOCK, LOCK-PAIR, GUARDED-BY, GC-SCAN, CLEANUP-NONBLOCK).",
 		NotDecided: "misuse by callers (user code nesting transactions); starvation.",
 	},
 	"C11": {
